@@ -31,6 +31,12 @@ def cases(ctx):
             c['mode'] = 'byte'
         out.append(c)
     out += gen.multipart_eci_cases(rng, ctx.thorough)[::3]
+    # the documented fallback chain is iso-8859-1 -> shift_jis -> utf-8 with PYTHON's codecs: characters that only vendor supersets of
+    # Shift JIS (cp932 ...) can encode must end up as UTF-8, characters only plain Shift JIS maps (U+203E) as Shift JIS
+    for txt in ('\u2460\u2461\u2462', '\u2163\u2116', '\u9ad9', '\uff5e', '\u203e', '\u3231\u2460', '\u30c6\u30b9\u30c8\u2460', '\u30c6\u30b9\u30c8',
+                '\u70b9\uff5e', '\ue000', '\u00a5', '\u301c', '\u2225', '\uff0d', '\u00a2\u00a3\u00ac'):
+        for kw in ({}, {'eci': True}, {'micro': False}, {'eci': True, 'error': 'M'}):
+            out.append(dict(content=txt, mask=0, **kw))
     return out
 
 
